@@ -17,7 +17,7 @@ RULE = (
     "length <= 1 (quick) / <= 2 (thorough) over the boundary alphabet '0125 69afg.:/_- ' and core over a table of "
     "address / near-miss cores (all i::j group splits, 7/8/9 groups, 255/256, 3/4/5 parts, leading zeros, /len, IPv4 "
     "tails, zones); atoms: EVERY sequence of <= 4 (quick) / <= 6 (thorough) atoms of {1,25,255,256,00,a,g,.,:,::,/,space}. "
-    "Each string goes through anonymize_ip_addr (IPv6 then IPv4) and through FileAnonymizer.anonymize_io (a quarter of the "
+    "longline: single physical lines of 7000/20000 address tokens (well over 64 KiB). Each string goes through anonymize_ip_addr (IPv6 then IPv4) and through FileAnonymizer.anonymize_io (a quarter of the "
     "generated lines in the undo direction); expected text "
     "from the independent scanner vf/ref/tokens.py + a fresh anonymizer's integer image. Non-trivial = string containing a "
     "valid address in non-canonical spelling or next to a non-space delimiter, or a near-miss; distinct by string."
@@ -133,7 +133,7 @@ def check_enum(case, ev):
     return check_line({"line": case["line"], "cfg": _ENUM_CFG}, ev, _ctx("enum", _ENUM_CFG))
 
 
-REPLAY = {"lines": check_line, "contexts": check_enum, "atoms": check_enum}
+REPLAY = {"longline": check_line, "lines": check_line, "contexts": check_enum, "atoms": check_enum}
 
 # ---------------------------------------------------------------- enumerated spaces
 
@@ -214,10 +214,34 @@ def t_lines(shard, nshards, seed, ev, known, n=500):
     return core.hyp_drive(_line_case(), check_line, n, seed, ev, known, check_name="lines", max_keys=8)
 
 
+def t_longline(shard, nshards, seed, ev, known, ntok=7000):
+    """Physical lines far longer than 64 KiB made of address tokens (a reader that cuts long
+    lines into pieces would split tokens)."""
+    import ipaddress
+
+    cases = []
+    for k in range(nshards):
+        if k % nshards != shard:
+            continue
+        toks = []
+        for i in range(ntok):
+            h = core.derive("ll", seed, k, i)
+            if i % 5 == 4:
+                toks.append(str(ipaddress.IPv6Address((h << 64 | h) & G.M128)))
+            elif i % 7 == 3:
+                toks.append("%03d.%03d.%03d.%03d" % ((h >> 24) & 255, (h >> 16) & 255, (h >> 8) & 255, h & 255))
+            else:
+                toks.append(G.v4_canon(h & G.M32))
+        sep = [" ", ",", ";", " "][k % 4]
+        cases.append({"line": sep.join(toks), "cfg": {"salt": "long%d" % k, "B4": [8, 0][k % 2], "B6": 8, "prefixes": None, "networks": None, "mode": "default"}, "undo": k % 3 == 2})
+    return core.enum_drive(cases, check_line, ev, known, "longline")
+
+
 def plan(tier):
     q = tier == "quick"
     return [
         Task("lines", t_lines, shards=4 if q else 16, n=500 if q else 30000),
         Task("contexts", t_contexts, shards=6 if q else 16, maxlen=1 if q else 2),
         Task("atoms", t_atoms, shards=4 if q else 16, maxatoms=4 if q else 6),
+        Task("longline", t_longline, shards=2 if q else 8, ntok=7000 if q else 20000),
     ]
